@@ -92,7 +92,7 @@ type c13Stream struct{}
 func (c13Stream) Name() string               { return "c13" }
 func (c13Stream) CaseTimeout() time.Duration { return 60 * time.Second }
 func (c13Stream) Rule() string {
-	return "K sessions in parallel (1..8) through a recording TCP forwarder: a conforming client first issues 0..3 plain requests, then sends StartTLS, the handler waits D1 ms before its reply and D2 ms between the reply and Request.StartTLS (0..40 ms each, occasionally 1.3 s), the client starts its handshake the moment the reply arrives (so its ClientHello is in the socket while the handler is still running), then issues N requests inside the tunnel, sequentially or pipelined, occasionally after 6 s of silence; optionally with all clients waiting for every StartTLS reply before any handshake, with Stop called while the tunnels are busy, or (for the race detector only) with a slow request still in flight when StartTLS is served; oracle: the handshake succeeds, every request in the tunnel is answered correctly and numbered after the StartTLS request, and every byte the server sent after the StartTLS reply parses as TLS records; trace replayed through the connection automaton; non-trivial = D1 + D2 > 0 or pipelined requests, distinct by scenario"
+	return "K sessions in parallel (1..8) through a recording TCP forwarder: a conforming client first issues 0..3 plain requests, then sends StartTLS, the handler waits D1 ms before its reply and D2 ms between the reply and Request.StartTLS (0..40 ms each, occasionally 1.3 s), the client starts its handshake the moment the reply arrives (so its ClientHello is in the socket while the handler is still running), then issues N requests inside the tunnel (in three cases of seven with DNs of 1.3 to 40 KB, which span several TLS records and must reach the handler whole), sequentially or pipelined, occasionally after 6 s of silence; optionally with all clients waiting for every StartTLS reply before any handshake, with Stop called while the tunnels are busy, or (for the race detector only) with a slow request still in flight when StartTLS is served; oracle: the handshake succeeds, every request in the tunnel is answered correctly and numbered after the StartTLS request, and every byte the server sent after the StartTLS reply parses as TLS records; trace replayed through the connection automaton; non-trivial = D1 + D2 > 0 or pipelined requests, distinct by scenario"
 }
 
 func (c13Stream) Generate(rng *rand.Rand, n int, thorough bool) []Case {
@@ -118,8 +118,10 @@ func (c13Stream) Generate(rng *rand.Rand, n int, thorough bool) []Case {
 		case 3:
 			overlap = 1 // (race detector only) a slow request is still in flight when StartTLS is served
 		}
-		cs = append(cs, Case{Line: fmt.Sprintf("c13 sessions=%d pre=%d before=%d after=%d post=%d pipelined=%d idle=%d barrier=%d stop=%d overlap=%d linger=%d", []int{1, 2, 4, 8}[rng.Intn(4)],
-			[]int{0, 0, 1, 3}[rng.Intn(4)], before, after, 1+rng.Intn(6), rng.Intn(2), idle, barrier, stop, overlap, linger), Kind: "starttls"})
+		// requests inside the tunnel with DNs of this many bytes (0: short ones): large requests span several TLS records
+		big := []int{0, 0, 0, 0, 1337, 5000, 40000}[rng.Intn(7)]
+		cs = append(cs, Case{Line: fmt.Sprintf("c13 sessions=%d pre=%d before=%d after=%d post=%d pipelined=%d idle=%d barrier=%d stop=%d overlap=%d linger=%d big=%d", []int{1, 2, 4, 8}[rng.Intn(4)],
+			[]int{0, 0, 1, 3}[rng.Intn(4)], before, after, 1+rng.Intn(6), rng.Intn(2), idle, barrier, stop, overlap, linger, big), Kind: "starttls"})
 	}
 	return cs
 }
@@ -132,8 +134,30 @@ func (c13Stream) Impl(c Case) string {
 		return c13Overlap(k)
 	}
 	rc := &recorder{}
+	big := atoi(p["big"])
+	bigDN := "cn=big" + strings.Repeat("y", big)
 	h := func(w *gldap.ResponseWriter, r *gldap.Request) {
 		rc.enter(r)
+		if big > 0 {
+			// the handler must see the large DN the client sent, whole
+			var dn string
+			switch m := r.VerifMessage().(type) {
+			case *gldap.SimpleBindMessage:
+				dn = m.UserName
+			case *gldap.SearchMessage:
+				dn = m.BaseDN
+			case *gldap.ModifyMessage:
+				dn = m.DN
+			case *gldap.AddMessage:
+				dn = m.DN
+			case *gldap.DeleteMessage:
+				dn = m.DN
+			}
+			if strings.HasPrefix(dn, "cn=big") && dn != bigDN {
+				_ = w.Write(r.NewResponse(gldap.WithResponseCode(80), gldap.WithDiagnosticMessage("the handler received a damaged DN")))
+				return
+			}
+		}
 		answer(w, r)
 	}
 	var barrier sync.WaitGroup
@@ -281,6 +305,11 @@ func (c13Stream) Impl(c Case) string {
 			for j := 0; j < post; j++ {
 				kinds[j] = opKinds[(s+j)%len(opKinds)]
 				fr := opFrame(kinds[j], int64(100+j))
+				if big > 0 && kinds[j] != "extended" {
+					r := Req{Kind: kinds[j], ID: int64(100 + j), DN: bigDN, Pass: "pw", Scope: 2, Filter: "(cn=x)"}
+					nd, _ := r.Node()
+					fr = nd.Ser()
+				}
 				if p["pipelined"] == "1" {
 					all = append(all, fr...)
 				} else {
@@ -289,7 +318,7 @@ func (c13Stream) Impl(c Case) string {
 					}
 					_ = tcl.send(fr)
 					rf, err := tcl.readFrame(10 * time.Second)
-					if err != nil || !strings.HasPrefix(strictView(rf), fmt.Sprintf("result id=%d ", 100+j)) {
+					if err != nil || !strings.HasPrefix(strictView(rf), fmt.Sprintf("result id=%d ", 100+j)) || strings.Contains(strictView(rf), " code=80 ") {
 						fail("request %d inside the tunnel not answered correctly: %v", j, err)
 						return
 					}
